@@ -45,6 +45,27 @@ for name, fn in [
                 print(f"MISMATCH {name} W={w} {view}: {d}")
     print(f"{name}: real pebble == SimPool for W in (1, 3, 16)")
 
+# timeout semantics: real pebble vs the lockstep back-end (TimeoutError at the slow task's own
+# next(), iteration continues, the other results are unaffected, the key is simply missing)
+from simkit.fnlib import sleepy_square
+from mxlpy.parallel import parallelise
+
+inputs = [(i, (i, 30.0 if i == 1 else 0.0)) for i in range(4)]
+real = parallelise(sleepy_square, inputs, parallel=True, max_workers=2, timeout=1.0, disable_tqdm=True)
+plan = simpool.PoolPlan(workers=2, seed=5)
+plan.lockstep = True
+plan.timeout_tasks = (1,)
+simpool.install(plan)
+try:
+    sim = parallelise(sleepy_square, [(i, (i, 0.0)) for i in range(4)], parallel=True, max_workers=2, timeout=1.0, disable_tqdm=True)
+finally:
+    simpool.uninstall()
+if real != sim or [k for k, _ in real] != [0, 2, 3]:
+    bad += 1
+    print(f"MISMATCH timeout semantics: real={real} lockstep={sim}")
+else:
+    print("parallelise(timeout=): real pebble == lockstep SimPool (slow task's key missing, rest intact)")
+
 for fam in ("F1", "F2", "F2r", "F4", "F5", "F6"):
     spec = {"family": fam, "params": {p: 0.5 for p in models.FAMILIES[fam][1]}, "y0": {v: 1.0 + i for i, v in enumerate(models.FAMILIES[fam][0])}}
     if fam == "F4":
